@@ -1,11 +1,15 @@
 /-
-`FittedAffine` (model `Biogo.AlignAff.fitAlign`), the part of C08 that holds: the reported
-total is the value of the match layer at the chosen end of the last column, and that value is
-the affine score of a genuine alignment of the whole query with a reference segment ending
-there, without adjacent opposite gaps (so it never exceeds the optimum for that end).
-Every value of the table is *attained* (`IsAtt`); it is not always the optimum (finding K3:
-column 0 keeps the empty alignment in the `up` layer, from which no query gap can start, and
-only match-layer ends are considered).  Core only.
+`FittedAffine` as it was before the repairs of K1 and K3 (model
+`Biogo.AlignAff.fitAlignLegacy`: fill without `up ↔ left` transitions, end taken from the match
+layer), the part of C08 that held: the reported total is the value of the match layer at the
+chosen end of the last column, and that value is the affine score of a genuine alignment of the
+whole query with a reference segment ending there, without adjacent opposite gaps (so it never
+exceeds the optimum for that end).  Every value of that table is *attained* (`IsAtt`); it is
+not always the optimum (finding K3: column 0 keeps the empty alignment in the `up` layer, from
+which no query gap could start, and only match-layer ends were considered).
+The lemmas about the shape of the fitted table (`fitAt_*`, `fit_some`, `exists_cand_fit`) are
+stated for either fill and are shared with `Proofs/FittedFull` (the code after the repairs).
+Core only.
 -/
 import Biogo.Proofs.AffineOpt
 import Biogo.Proofs.AlignAffTable
@@ -59,6 +63,9 @@ theorem att_snoc {P : Aln → Prop} {f : Aln → Int} {v : V} (c : Col) (x : Int
     obtain ⟨a, ha, e⟩ := hp z rfl
     exact ⟨a ++ [c], ⟨a, ha, rfl⟩, by rw [h a ha]; omega⟩
 
+theorem gapLayer_false (o g : Int) (pd ps po : V) :
+    gapLayer false o g pd ps po = max2 (vadd pd (o + g)) (vadd ps g) := rfl
+
 /-- `up` layer of a cell from the cell above -/
 theorem att_u_step {S : Matrix} {o : Int} {rp Q : List Nat} {c : Cell} (x : Nat)
     (hm : IsAtt (Cls flF rp Q .m) (scoreAff S o) c.d) (hu : IsAtt (Cls flF rp Q .u) (scoreAff S o) c.u) :
@@ -111,7 +118,7 @@ theorem inner_strong {S : Matrix} {o : Int} {rp qp : List Nat} {pd pu lc : Cell}
     (hd : Weak S o rp qp pd) (hu : Strong S o rp (qp ++ [y]) pu)
     (hlm : IsAtt (Cls flF (rp ++ [x]) qp .m) (scoreAff S o) lc.d)
     (hll : IsAtt (Cls flF (rp ++ [x]) qp .l) (scoreAff S o) lc.l) :
-    Strong S o (rp ++ [x]) (qp ++ [y]) (nwCell S o x pd pu lc y) := by
+    Strong S o (rp ++ [x]) (qp ++ [y]) (nwCell false S o x pd pu lc y) := by
   intro k
   cases k with
   | m => exact att_m_step x y hd
@@ -131,8 +138,8 @@ theorem optRow0Tail_congr (fl fl' : Flags) (S : Matrix) (o : Int) (hc : fl.cross
 /-- first row: every value is attained in its own layer -/
 theorem row0_strong (S : Matrix) (o : Int) (q : List Nat) (j : Nat) (hj : j ≤ q.length) :
     Strong S o [] (q.take j) ((nwRow0 S o q).getD j noCell) := by
-  rw [Biogo.Proofs.NWAffine.nwRow0_eq,
-    optRow0Tail_congr Biogo.Proofs.NWAffine.flN flF S o rfl rfl]
+  rw [Biogo.Proofs.NWAffine.nwRow0_eq false,
+    optRow0Tail_congr (Biogo.Proofs.NWAffine.flN false) flF S o rfl rfl]
   intro k
   exact att_of_isOpt ((row0_ok flF S o q).2 j hj k)
 
@@ -153,7 +160,7 @@ theorem scan_strong (S : Matrix) (o : Int) (rp : List Nat) (x : Nat) :
       IsAtt (Cls flF (rp ++ [x]) done .l) (scoreAff S o) lc.l →
       ∀ j, j < ys.length →
         Strong S o (rp ++ [x]) (done ++ ys.take (j + 1))
-          ((scanRow (nwCell S o x) prevTail lc ys).getD j noCell) := by
+          ((scanRow (nwCell false S o x) prevTail lc ys).getD j noCell) := by
   intro ys
   induction ys with
   | nil => intro done prevTail lc _ _ _ _ _ j hj; simp at hj
@@ -181,7 +188,7 @@ theorem scan_strong (S : Matrix) (o : Int) (rp : List Nat) (x : Nat) :
 theorem fitRow_step {S : Matrix} {o : Int} {q rp : List Nat} {prev : List Cell} (b : Bool) (x : Nat)
     (h : FitRow S o q rp prev) :
     FitRow S o q (rp ++ [x])
-      (fitFirst b (prev.headD noCell) x :: scanRow (nwCell S o x) prev (fitFirst b (prev.headD noCell) x) q) := by
+      (fitFirst b (prev.headD noCell) x :: scanRow (nwCell false S o x) prev (fitFirst b (prev.headD noCell) x) q) := by
   have hscan := scan_strong S o rp x q [] prev (fitFirst b (prev.headD noCell) x) h.len
     (by simpa using h.weak0) (fun j h1 h2 => by simpa using h.strong j h1 h2)
     (by simp only [fitFirst]; exact att_none) (by simp only [fitFirst]; exact att_none)
@@ -209,7 +216,7 @@ theorem fitRows_ok (S : Matrix) (o : Int) (q : List Nat) :
     ∀ (xs rp : List Nat) (prev : List Cell) (b : Bool), FitRow S o q rp prev →
       ∀ i, i < xs.length →
         FitRow S o q (rp ++ xs.take (i + 1))
-          ((fillRows fitFirst (nwCell S o) q b prev xs).getD i []) := by
+          ((fillRows fitFirst (nwCell false S o) q b prev xs).getD i []) := by
   intro xs
   induction xs with
   | nil => intro rp prev b _ i hi; simp at hi
@@ -230,10 +237,10 @@ theorem fitRows_ok (S : Matrix) (o : Int) (q : List Nat) :
     alignment of `q[0..j)` with a segment of `r` ending at `i`, ending in a match column -/
 theorem fitRows_strong (S : Matrix) (o : Int) (r q : List Nat) (i j : Nat) (hi : i ≤ r.length)
     (h1 : 1 ≤ j) (hj : j ≤ q.length) :
-    Strong S o (r.take i) (q.take j) (rowAt (fitRows S o r q) i j) := by
+    Strong S o (r.take i) (q.take j) (rowAt (fitRows false S o r q) i j) := by
   have h0 : FitRow S o q [] (nwRow0 S o q) := by
     refine ⟨?_, ?_, ?_, ?_, ?_⟩
-    · rw [Biogo.Proofs.NWAffine.nwRow0_eq]; exact (row0_ok Biogo.Proofs.NWAffine.flN S o q).1
+    · rw [Biogo.Proofs.NWAffine.nwRow0_eq false]; exact (row0_ok (Biogo.Proofs.NWAffine.flN false) S o q).1
     · exact (row0_strong S o q 0 (Nat.zero_le _)).weak
     · exact row0_strong S o q 0 (Nat.zero_le _) .m
     · exact row0_strong S o q 0 (Nat.zero_le _) .l
@@ -244,34 +251,37 @@ theorem fitRows_strong (S : Matrix) (o : Int) (r q : List Nat) (i j : Nat) (hi :
     have := (fitRows_ok S o q r [] _ true h0 i (by omega)).strong j h1 hj
     simpa [rowAt, fitRows] using this
 
-/-! ### the fitted table in table coordinates -/
+/-! ### the fitted table in table coordinates (either fill) -/
 
-def fitAt (S : Matrix) (o : Int) (r q : List Nat) (i j : Nat) : Cell := rowAt (fitRows S o r q) i j
+def fitAt (cross : Bool) (S : Matrix) (o : Int) (r q : List Nat) (i j : Nat) : Cell :=
+  rowAt (fitRows cross S o r q) i j
 
 theorem nwRow0_len (S : Matrix) (o : Int) (q : List Nat) : (nwRow0 S o q).length = q.length + 1 := by
-  rw [Biogo.Proofs.NWAffine.nwRow0_eq]; exact (row0_ok Biogo.Proofs.NWAffine.flN S o q).1
+  rw [Biogo.Proofs.NWAffine.nwRow0_eq false]; exact (row0_ok (Biogo.Proofs.NWAffine.flN false) S o q).1
 
-theorem fitTable_at (S : Matrix) (o : Int) (r q : List Nat) (i j : Nat) (hj : j ≤ q.length) :
-    (fitTable S o r q).at i j = fitAt S o r q i j := by
+theorem fitTable_at (cross : Bool) (S : Matrix) (o : Int) (r q : List Nat) (i j : Nat) (hj : j ≤ q.length) :
+    (fitTable cross S o r q).at i j = fitAt cross S o r q i j := by
   simp only [fitTable, fitAt, fitRows]
-  exact mkTable_at _ _ i j (rows_all_len fitFirst (nwCell S o) q r _ (nwRow0_len S o q)) (by omega)
+  exact mkTable_at _ _ i j (rows_all_len fitFirst (nwCell cross S o) q r _ (nwRow0_len S o q)) (by omega)
 
-theorem fitAt_inner (S : Matrix) (o : Int) (r q : List Nat) (i j : Nat) (hi : i < r.length)
+theorem fitAt_inner (cross : Bool) (S : Matrix) (o : Int) (r q : List Nat) (i j : Nat) (hi : i < r.length)
     (hj : j < q.length) :
-    fitAt S o r q (i + 1) (j + 1) =
-      nwCell S o (r.getD i 0) (fitAt S o r q i j) (fitAt S o r q i (j + 1))
-        (fitAt S o r q (i + 1) j) (q.getD j 0) := by
+    fitAt cross S o r q (i + 1) (j + 1) =
+      nwCell cross S o (r.getD i 0) (fitAt cross S o r q i j) (fitAt cross S o r q i (j + 1))
+        (fitAt cross S o r q (i + 1) j) (q.getD j 0) := by
   simp only [fitAt, fitRows]
   exact rows_inner _ _ q r _ (nwRow0_len S o q) i j hi hj
 
-theorem fitAt_col0 (S : Matrix) (o : Int) (r q : List Nat) (i : Nat) (hi : i < r.length) :
-    fitAt S o r q (i + 1) 0 = ⟨none, some 0, none⟩ := by
+theorem fitAt_col0 (cross : Bool) (S : Matrix) (o : Int) (r q : List Nat) (i : Nat) (hi : i < r.length) :
+    fitAt cross S o r q (i + 1) 0 = ⟨none, some 0, none⟩ := by
   simp only [fitAt, fitRows]
   rw [rows_first _ _ q r _ i hi]; rfl
 
-theorem fitAt_row0 (S : Matrix) (o : Int) (r q : List Nat) (j : Nat) :
-    fitAt S o r q 0 j = rowAt (optRows Biogo.Proofs.NWAffine.flN S o r q) 0 j := by
-  simp only [fitAt, fitRows, rowAt, optRows, List.getD_cons_zero, Biogo.Proofs.NWAffine.nwRow0_eq]
+/-- the first row of the fitted table is the first row of the global table (which does not
+    depend on the cross transitions: no cell above it) -/
+theorem fitAt_row0 (cross : Bool) (S : Matrix) (o : Int) (r q : List Nat) (j : Nat) (c' : Bool) :
+    fitAt cross S o r q 0 j = rowAt (optRows (Biogo.Proofs.NWAffine.flN c') S o r q) 0 j := by
+  simp only [fitAt, fitRows, rowAt, optRows, List.getD_cons_zero, Biogo.Proofs.NWAffine.nwRow0_eq c']
 
 theorem vadd_some {a : V} {x w : Int} (h : a = some w) : vadd a x = some (w + x) := by rw [h]; rfl
 
@@ -295,39 +305,41 @@ theorem max3_some {c : Cell} {k : Kind} {w : Int} (h : c.get k = some w) : ∃ z
   | l => simp only [Cell.get] at h; rw [h] at h3; obtain ⟨y, hy, _⟩ := vle_some h3; exact ⟨y, by rw [← h] at hy; exact hy⟩
 
 /-- first row: the match layer or the left layer holds a value -/
-theorem fit_row0_some (S : Matrix) (o : Int) (r q : List Nat) :
-    ∀ j, j ≤ q.length → (∃ w, (fitAt S o r q 0 j).d = some w) ∨ (∃ w, (fitAt S o r q 0 j).l = some w) := by
+theorem fit_row0_some (cross : Bool) (S : Matrix) (o : Int) (r q : List Nat) :
+    ∀ j, j ≤ q.length → (∃ w, (fitAt cross S o r q 0 j).d = some w) ∨ (∃ w, (fitAt cross S o r q 0 j).l = some w) := by
   intro j
   induction j with
-  | zero => intro _; left; rw [fitAt_row0, optRows_origin]; exact ⟨0, rfl⟩
+  | zero => intro _; left; rw [fitAt_row0 cross S o r q 0 false, optRows_origin]; exact ⟨0, rfl⟩
   | succ j ih =>
     intro hj
     right
-    rw [fitAt_row0, optRows_row0 _ S o r q j (by omega), ← fitAt_row0]
-    simp only [Biogo.Proofs.NWAffine.gapVal_flN]
+    rw [fitAt_row0 cross S o r q (j + 1) false, optRows_row0 _ S o r q j (by omega), ← fitAt_row0 cross S o r q j false]
+    simp only []
+    rw [← Biogo.Proofs.NWAffine.gapLayer_eq]
+    simp only [Biogo.Proofs.NWAffine.flN, gapLayer_false]
     rcases ih (by omega) with ⟨w, hw⟩ | ⟨w, hw⟩
     · exact max2_some_left (vadd_some hw)
     · exact max2_some_right (vadd_some hw)
 
 /-- every cell of the fitted table holds a value in some layer -/
-theorem fit_some (S : Matrix) (o : Int) (r q : List Nat) :
-    ∀ i, i ≤ r.length → ∀ j, j ≤ q.length → ∃ k w, (fitAt S o r q i j).get k = some w := by
+theorem fit_some (cross : Bool) (S : Matrix) (o : Int) (r q : List Nat) :
+    ∀ i, i ≤ r.length → ∀ j, j ≤ q.length → ∃ k w, (fitAt cross S o r q i j).get k = some w := by
   intro i
   induction i with
   | zero =>
     intro _ j hj
-    rcases fit_row0_some S o r q j hj with ⟨w, hw⟩ | ⟨w, hw⟩
+    rcases fit_row0_some cross S o r q j hj with ⟨w, hw⟩ | ⟨w, hw⟩
     · exact ⟨.m, w, hw⟩
     · exact ⟨.l, w, hw⟩
   | succ i ih =>
     intro hi j hj
     cases j with
-    | zero => rw [fitAt_col0 S o r q i (by omega)]; exact ⟨.u, 0, rfl⟩
+    | zero => rw [fitAt_col0 cross S o r q i (by omega)]; exact ⟨.u, 0, rfl⟩
     | succ j =>
       obtain ⟨k, w, hw⟩ := ih (by omega) j (by omega)
       obtain ⟨z, hz⟩ := max3_some hw
       refine ⟨.m, z + S (r.getD i 0) (q.getD j 0), ?_⟩
-      rw [fitAt_inner S o r q i j (by omega) (by omega)]
+      rw [fitAt_inner cross S o r q i j (by omega) (by omega)]
       simp only [Cell.get, nwCell]
       exact vadd_some hz
 
@@ -364,58 +376,58 @@ theorem fitted_of_adm (r q : List Nat) (e : Nat) (he : e ≤ r.length) (a : Aln)
     · cases hn
     · exact hn
 
-theorem fit_d_some (S : Matrix) (o : Int) (r q : List Nat) (i j : Nat) (hi : i < r.length) (hj : j < q.length) :
-    ∃ x, (fitAt S o r q (i + 1) (j + 1)).d = some x := by
-  obtain ⟨k, w, hw⟩ := fit_some S o r q i (by omega) j (by omega)
+theorem fit_d_some (cross : Bool) (S : Matrix) (o : Int) (r q : List Nat) (i j : Nat) (hi : i < r.length) (hj : j < q.length) :
+    ∃ x, (fitAt cross S o r q (i + 1) (j + 1)).d = some x := by
+  obtain ⟨k, w, hw⟩ := fit_some cross S o r q i (by omega) j (by omega)
   obtain ⟨z, hz⟩ := max3_some hw
   refine ⟨z + S (r.getD i 0) (q.getD j 0), ?_⟩
-  rw [fitAt_inner S o r q i j hi hj]
+  rw [fitAt_inner cross S o r q i j hi hj]
   simp only [nwCell]
   exact vadd_some hz
 
-theorem exists_cand_fit (S : Matrix) (o : Int) (r q : List Nat) (i j : Nat) (hi : i < r.length)
+theorem exists_cand_fit (cross : Bool) (S : Matrix) (o : Int) (r q : List Nat) (i j : Nat) (hi : i < r.length)
     (hj : j < q.length) (k : Kind) (v : Int)
-    (h : ((fitTable S o r q).at (i + 1) (j + 1)).get k = some v) (_ : ¬ ((false : Bool) = true ∧ v = 0)) :
-    ∃ cd ∈ cands false S o (r.getD i 0) (q.getD j 0), cd.1 = k ∧
-      vadd ((predOf (fitTable S o r q) (i + 1) (j + 1) cd.1).get cd.2.1) cd.2.2 = some v := by
+    (h : ((fitTable cross S o r q).at (i + 1) (j + 1)).get k = some v) (_ : ¬ ((false : Bool) = true ∧ v = 0)) :
+    ∃ cd ∈ cands cross false S o (r.getD i 0) (q.getD j 0), cd.1 = k ∧
+      vadd ((predOf (fitTable cross S o r q) (i + 1) (j + 1) cd.1).get cd.2.1) cd.2.2 = some v := by
   apply Biogo.Proofs.NWAffine.exists_cand_of_inner i j _ k v h
-  rw [fitTable_at S o r q (i + 1) (j + 1) (by omega), fitTable_at S o r q i j (by omega),
-    fitTable_at S o r q i (j + 1) (by omega), fitTable_at S o r q (i + 1) j (by omega)]
-  exact fitAt_inner S o r q i j hi hj
+  rw [fitTable_at cross S o r q (i + 1) (j + 1) (by omega), fitTable_at cross S o r q i j (by omega),
+    fitTable_at cross S o r q i (j + 1) (by omega), fitTable_at cross S o r q (i + 1) j (by omega)]
+  exact fitAt_inner cross S o r q i j hi hj
 
-/-- The pairs reported by the model of `FittedAffine` end at the selected row `e ≥ 1`, and
-    their total is the match-layer value of the last column of that row. -/
+/-- The pairs reported by the model of `FittedAffine` before the repairs of K1 and K3 end at the
+    selected row `e ≥ 1`, and their total is the match-layer value of the last column of that row. -/
 theorem fitAlign_value (S : Matrix) (o : Int) (r q : List Nat) (hr : r ≠ []) (hq : q ≠ []) :
-    ∃ ps e x, fitAlign S o r q = .ok ps ∧ (lastEnd ps).1 = e ∧ 1 ≤ e ∧ e ≤ r.length ∧
-      (fitAt S o r q e q.length).d = some x ∧ total ps = x := by
+    ∃ ps e x, fitAlignLegacy S o r q = .ok ps ∧ (lastEnd ps).1 = e ∧ 1 ≤ e ∧ e ≤ r.length ∧
+      (fitAt false S o r q e q.length).d = some x ∧ total ps = x := by
   have hR : 1 ≤ r.length := by cases r with | nil => exact absurd rfl hr | cons _ _ => simp
   have hC : 1 ≤ q.length := by cases q with | nil => exact absurd rfl hq | cons _ _ => simp
-  have hE : fitEnd (fitTable S o r q) q.length r.length 1 (0, none) ≤ r.length :=
+  have hE : fitEnd (fitTable false S o r q) q.length r.length 1 (0, none) ≤ r.length :=
     Biogo.Proofs.TraceWF.fitEnd_le _ _ _ _ _ _ (Nat.zero_le _) (by omega)
-  have hE1 : 1 ≤ fitEnd (fitTable S o r q) q.length r.length 1 (0, none) :=
+  have hE1 : 1 ≤ fitEnd (fitTable false S o r q) q.length r.length 1 (0, none) :=
     fitEnd_pos _ _ _ _ _ (Nat.le_refl _) (Or.inr ⟨rfl, hR⟩)
-  generalize he : fitEnd (fitTable S o r q) q.length r.length 1 (0, none) = e at hE hE1
+  generalize he : fitEnd (fitTable false S o r q) q.length r.length 1 (0, none) = e at hE hE1
   obtain ⟨e', rfl⟩ : ∃ e', e = e' + 1 := ⟨e - 1, by omega⟩
   obtain ⟨C', hC'⟩ : ∃ C', q.length = C' + 1 := ⟨q.length - 1, by omega⟩
-  obtain ⟨x, hx⟩ := fit_d_some S o r q e' C' (by omega) (by omega)
-  have hinit : Good (fitTable S o r q) r.length q.length x
+  obtain ⟨x, hx⟩ := fit_d_some false S o r q e' C' (by omega) (by omega)
+  have hinit : Good (fitTable false S o r q) r.length q.length x
       { i := e' + 1, j := q.length, layer := .m, last := .m, score := 0, maxI := e' + 1,
         maxJ := q.length, aln := [] } := by
     refine ⟨hE, Nat.le_refl _, x, ?_, by simp [total]⟩
     simp only []
-    rw [fitTable_at S o r q _ _ (Nat.le_refl _), hC']; exact hx
+    rw [fitTable_at false S o r q _ _ (Nat.le_refl _), hC']; exact hx
   obtain ⟨st', hloop, ⟨hi', hj', v, hv, hsum⟩, hend⟩ :=
-    loop_good_gen true false r.length q.length (exists_cand_fit S o r q) x (e' + 1 + q.length) _ hinit
+    loop_good_gen true false false r.length q.length (exists_cand_fit false S o r q) x (e' + 1 + q.length) _ hinit
       (Nat.le_refl _)
-  have hinv := Biogo.Proofs.TraceWF.loop_inv true false _ S o r q r.length q.length (e' + 1) q.length _ _ st'
+  have hinv := Biogo.Proofs.TraceWF.loop_inv true false false _ S o r q r.length q.length (e' + 1) q.length _ _ st'
     (Biogo.Proofs.TraceWF.init_inv r.length q.length (e' + 1) q.length .m hE (Nat.le_refl _)) hloop
   obtain ⟨_, hlast, _⟩ := Biogo.Proofs.TraceWF.emit_wf hinv
   have hne : st'.emit.aln ≠ [] := by simp [TB.emit]
   -- the value the loop stops on
-  rw [fitTable_at S o r q _ _ hj'] at hv
-  have hxd : (fitAt S o r q (e' + 1) q.length).d = some x := by rw [hC']; exact hx
-  unfold fitAlign fitAlignT
-  simp only [he, hloop]
+  rw [fitTable_at false S o r q _ _ hj'] at hv
+  have hxd : (fitAt false S o r q (e' + 1) q.length).d = some x := by rw [hC']; exact hx
+  unfold fitAlignLegacy fitAlignT
+  simp only [Bool.false_eq_true, if_false, he, hloop]
   by_cases hj0 : st'.j ≠ 0
   · rw [if_pos hj0]
     have hi0 : st'.i = 0 := by
@@ -424,16 +436,16 @@ theorem fitAlign_value (S : Matrix) (o : Int) (r q : List Nat) (hr : r ≠ []) (
       · exact absurd h hj0
       · exact absurd h.1 (by simp)
     obtain ⟨j', hj'e⟩ : ∃ j', st'.j = j' + 1 := ⟨st'.j - 1, by omega⟩
-    have hl : st'.layer = .l ∧ (fitAt S o r q 0 (j' + 1)).l = some v := by
-      rw [hi0, hj'e, fitAt_row0, optRows_row0 _ S o r q j' (by omega)] at hv
+    have hl : st'.layer = .l ∧ (fitAt false S o r q 0 (j' + 1)).l = some v := by
+      rw [hi0, hj'e, fitAt_row0 false S o r q _ false, optRows_row0 _ S o r q j' (by omega)] at hv
       cases hk : st'.layer <;> rw [hk] at hv <;> simp [Cell.get, Biogo.Proofs.NWAffine.flN, emptyAt] at hv
       refine ⟨rfl, ?_⟩
-      rw [fitAt_row0, optRows_row0 _ S o r q j' (by omega)]
+      rw [fitAt_row0 false S o r q _ false, optRows_row0 _ S o r q j' (by omega)]
       exact hv
     refine ⟨_, e' + 1, x, rfl, ?_, hE1, hE, hxd, ?_⟩
     · rw [Biogo.Proofs.TraceWF.lastEnd_cons _ _ hne, hlast]
     · simp only [total_cons, TB.emit]
-      rw [fitTable_at S o r q _ _ hj', hi0, hj'e, hl.2]
+      rw [fitTable_at false S o r q _ _ hj', hi0, hj'e, hl.2]
       simp only [vget]
       omega
   · have hj0' : st'.j = 0 := Decidable.not_not.mp hj0
@@ -442,11 +454,11 @@ theorem fitAlign_value (S : Matrix) (o : Int) (r q : List Nat) (hr : r ≠ []) (
       rw [hj0'] at hv
       cases hi0 : st'.i with
       | zero =>
-        rw [hi0, fitAt_row0, optRows_origin] at hv
+        rw [hi0, fitAt_row0 false S o r q _ false, optRows_origin] at hv
         cases hk : st'.layer <;> rw [hk] at hv <;> simp [Cell.get, origin] at hv
         omega
       | succ i0 =>
-        rw [hi0, fitAt_col0 S o r q i0 (by omega)] at hv
+        rw [hi0, fitAt_col0 false S o r q i0 (by omega)] at hv
         cases hk : st'.layer <;> rw [hk] at hv <;> simp [Cell.get] at hv
         omega
     refine ⟨_, e' + 1, x, rfl, ?_, hE1, hE, hxd, ?_⟩
@@ -454,11 +466,11 @@ theorem fitAlign_value (S : Matrix) (o : Int) (r q : List Nat) (hr : r ≠ []) (
     · simp only [total_cons, TB.emit]
       omega
 
-/-- **FittedAffine, as far as C08 holds**: the reported total is the score of an alignment of
-    the whole query with a reference segment that ends at the reported end, without adjacent
-    opposite gaps. -/
+/-- **FittedAffine before the repairs, as far as C08 held**: the reported total is the score of
+    an alignment of the whole query with a reference segment that ends at the reported end,
+    without adjacent opposite gaps. -/
 theorem fitAlign_sound (S : Matrix) (o : Int) (r q : List Nat) (hr : r ≠ []) (hq : q ≠ []) :
-    ∃ ps, fitAlign S o r q = .ok ps ∧ (lastEnd ps).1 ≤ r.length ∧
+    ∃ ps, fitAlignLegacy S o r q = .ok ps ∧ (lastEnd ps).1 ≤ r.length ∧
       ∃ a, IsFitted a r q (lastEnd ps).1 ∧ NoAdj a ∧ scoreAff S o a = total ps := by
   have hC : 1 ≤ q.length := by cases q with | nil => exact absurd rfl hq | cons _ _ => simp
   obtain ⟨ps, e, x, hps, hend, _, heR, hx, htot⟩ := fitAlign_value S o r q hr hq
